@@ -600,7 +600,14 @@ fn c14_case(seed: u64, k: usize, out: &mut CaseOut) -> Vec<Violation> {
                 let got: std::collections::BTreeSet<(i64, i64)> = run_read(&db, "MATCH (b)<-[r]-(a) RETURN a.uid AS a, b.uid AS b", &params, false)
                     .map(|rows| rows.iter().filter_map(|r| match (&r[0].1, &r[1].1) { (Value::Int(a), Value::Int(b)) => Some((*a, *b)), _ => None }).collect())
                     .unwrap_or_default();
-                if want != got {
+                // (a compaction earlier in the history can bring deleted relationships back — the
+                // C05 findings — which would make this comparison about compaction, not about the
+                // transaction: it is made only on histories without one)
+                let compacted = history.iter().any(|h| h.contains("compact"));
+                if compacted {
+                    out.count("multi_statement_transactions_after_a_compaction_not_compared", 1);
+                }
+                if want != got && !compacted {
                     viols.push(Violation {
                         signature: "C14|relationships-differ-after-transaction|multi-statement-transaction".into(),
                         summary: format!("after the transaction [{}] the relationships found from their target end are {:?}, the statements leave {:?}", script.join("; "), got, want),
